@@ -294,7 +294,7 @@ def check_solution_shape(sol, system, solver_name, out_violations):
                     return False
                 continue
             row = np.asarray(val)[i]
-            if not np.array_equal(np.asarray(got), row):
+            if not np.array_equal(np.asarray(got), row, equal_nan=True):
                 out_violations.append(violation("iterator", f"{solver_name}.{name}", f"record {i}: field {name} differs from row {i} of Solution.{name}"))
                 return False
     return True
